@@ -33,9 +33,9 @@ CLAIM = dict(
     note="OpenCV's INTER_AREA kernel is a contract (box mean when shrinking, replication for integer enlargement), tied by "
     "exact comparison for power-of-two factors and 1e-6 relative otherwise (OpenCV computes area weights in float32); "
     "numpy float64 arithmetic is exact on the dyadic stream.",
-    limits="normalize: the model + theorem are tied through the oracle only (the driver's `norm` request is not sent; darsia.weight's "
-    "ndarray-ratio branch is not modelled); resolution independence of ARRAY volumes has theorems for pure coarsening and pure refinement in any "
-    "dimension, the mixed case (one axis coarsened, the other refined) is covered by tie + oracle only; non-integer factors (effVol_total, "
+    limits="normalize (Geometry.normalize + darsia.weight float / ndarray-ratio branches) is tied by the `norm` request (values within 1e-12); "
+    "resolution independence of ARRAY volumes: spec_array_mixed_nd covers every per-axis combination of integer coarsening / refinement in any "
+    "dimension; non-integer factors (effVol_total, "
     "integrate_fresh_eq_spec hold for them in the model) are not tied; data with another number of axes than the geometry are outside the model "
     "(Err.other): the code broadcasts there.",
     technique="Lean 4 proof (induction over histories with a cache invariant, telescoping/box-sum algebra) + differential correspondence + property oracle",
@@ -463,6 +463,7 @@ def run(ctx):
 def oracle_fields(ctx, d):
     rng = ctx.rng
     nlin = nres = nnorm = 0
+    norm_lines, norm_impl = [], []
     for dim, nv, dyadic in [(1, (4,), True), (2, (4, 4), True), (2, (4, 2), True), (3, (2, 2, 2), True), (2, (6, 3), False)]:
         res = resolutions(nv, dyadic)
         for g in geometries(ctx, dim, nv, dyadic):
@@ -527,11 +528,32 @@ def oracle_fields(ctx, d):
                     if isinstance(out, Raised):
                         ctx.fail(f"C03:normalize:raises({'array' if has_array(g) else 'scalar'}-volume)", repr(out), {"check": "normalize", "geo": g, "history": [img, refd]})
                         continue
+                    if len(norm_lines) < ctx.pick(60, 400):
+                        # tie of the `normalize` model (Geometry.normalize + darsia.weight, float and ndarray-ratio branches)
+                        norm_lines.append(f"norm 1 {geo_line(g)} {data_line(img)} {data_line(refd)}")
+                        norm_impl.append(np.asarray(out.img, dtype=float).ravel().tolist())
                     i1 = call(build_geo(d, g).integrate, out)
                     i2 = call(build_geo(d, g).integrate, data_obj(d, refd, dim, dims))
                     if isinstance(i1, Raised) or isinstance(i2, Raised) or not np.allclose(np.asarray(i1, dtype=float), np.asarray(i2, dtype=float), rtol=1e-12, atol=0):
                         ctx.fail(f"C03:normalize:integrals-differ({'array' if has_array(g) else 'scalar'}-volume)", f"integral of normalised image {show_result(i1)} != integral of reference {show_result(i2)}",
                                  {"check": "normalize", "geo": g, "history": [img, refd]})
+    # correspondence: normalised image (model: exact rationals) against the implementation's floats, relative 1e-12 (one float division)
+    got = ctx.model(norm_lines)
+    bad = []
+    for k, (g_, v) in enumerate(zip(got, norm_impl)):
+        parts = g_.split(" ; ")
+        toks = parts[0].split()
+        ok = len(parts) == 3 and len(toks) == len(v) and parts[1] == parts[2]  # the model's integrals of out and ref agree (theorem instance)
+        if ok:
+            scale = max(1.0, max(abs(x) for x in v))
+            ok = all(abs(float(Fraction(t)) - x) <= 1e-12 * scale for t, x in zip(toks, v))
+        if not ok:
+            bad.append(k)
+    ctx.cov.setdefault("correspondence", {})["normalize"] = {"cases": len(norm_lines), "disagreements": len(bad), "tolerance": 1e-12}
+    if bad:
+        k = bad[0]
+        ctx.mark("CORR-BROKEN", {"correspondence": "normalize", "request": norm_lines[k][:1500], "model": got[k][:800], "impl": fmts(norm_impl[k])[:800], "n_diffs": len(bad)})
+        ctx.log(f"correspondence normalize: {len(bad)} disagreements, e.g. model={got[k][:150]} impl={fmts(norm_impl[k])[:150]}")
     ctx.cov["oracle"] = {"resolution_cases": nres, "linearity_cases": nlin, "normalize_cases": nnorm}
 
 
